@@ -252,6 +252,89 @@ def replay_schedule(case, explore=None):
     return ev
 
 
+# --------------------------------------------------------------------------- life cycle of one MultiPartUpload (beyond the listed properties)
+class NoSuchUpload(Exception):
+    pass
+
+
+class LifeS3:
+    """stateful stand-in for the service: uploads in progress per (key, id); listing by prefix; unknown (key, id) is refused"""
+
+    def __init__(self):
+        self.n = 0
+        self.active = {}
+
+    def start(self, key):
+        self.n += 1
+        self.active[self.n] = key
+        return self.n
+
+    def _find(self, kw):
+        uid = kw["UploadId"]
+        i = int(uid[2:]) if uid.startswith("id") and uid[2:].isdigit() else -1
+        if self.active.get(i) != kw["Key"]:
+            raise NoSuchUpload(uid)
+        return i
+
+    def create_multipart_upload(self, **kw):
+        return {"UploadId": f"id{self.start(kw['Key'])}"}
+
+    def upload_part(self, **kw):
+        self._find(kw)
+        return {"ETag": f"e{kw['PartNumber']}"}
+
+    def complete_multipart_upload(self, **kw):
+        del self.active[self._find(kw)]
+        return {"ETag": "final"}
+
+    def abort_multipart_upload(self, **kw):
+        del self.active[self._find(kw)]
+        return {}
+
+    def list_multipart_uploads(self, **kw):
+        ups = [{"UploadId": f"id{i}", "Key": k} for i, k in sorted(self.active.items()) if k.startswith(kw["Prefix"])]
+        return {"Uploads": ups} if ups else {}
+
+
+def run_life(case):
+    from odc.geo.cog._s3 import MultiPartUpload
+
+    svc = LifeS3()
+
+    class M(MultiPartUpload):
+        def s3_client(self):
+            return svc
+
+    mpu = M("bkt", "k")
+    obs = []
+    for st in case["steps"]:
+        op, arg = st["op"], st["arg"]
+        o = {"out": "ok", "listed": 0}
+        try:
+            if op == "initiate":
+                mpu.initiate()
+            elif op == "write_part":
+                mpu.write_part(arg, b"x")
+            elif op == "finalise":
+                mpu.finalise([])
+            elif op == "cancel":
+                mpu.cancel()
+            elif op == "cancel_other":
+                mpu.cancel(f"id{arg}")
+            elif op == "cancel_all":
+                mpu.cancel("all")
+            elif op == "list_active":
+                o["listed"] = len(mpu.list_active())
+            elif op == "foreign":
+                svc.start("k" if arg == 0 else "k+")
+        except Exception as ex:  # noqa: BLE001
+            o["out"] = type(ex).__name__
+        uid = mpu.uploadId
+        o.update(uid=int(uid[2:]) if uid.startswith("id") else 0, started=bool(mpu.started), nactive=len(svc.active))
+        obs.append(o)
+    return {"steps": case["steps"], "obs": obs}
+
+
 # --------------------------------------------------------------------------- file sink / limits
 def run_sink_case(case):
     from odc.geo.cog._mpu_fs import MPUFileSink
@@ -422,6 +505,17 @@ def run(ctx):
     for ev, v in zip(sevents, sverdicts):
         ctx.record(ev["c"], v, op=ev["c"]["op"], conformance=True, sample=ev)
     ctx.traces_validated += len(sevents)
+    # ---- life cycle of one MultiPartUpload object (initiate / write / finalise / cancel / list) against a stateful service: conformance only
+    res, lcases = ctx.model_check("s3/MC_UploadLife.tla", "MC_UploadLife.cfg", emit=True, timeout=900)
+    lcases.sort(key=lambda c: json.dumps(c, sort_keys=True))
+    ctx.extra["life_cycle_behaviours_total"] = len(lcases)
+    lcases = ctx.subsample(lcases, 6000 if q else 10 ** 6)
+    levents = ctx.pmap(run_life, lcases)
+    lverdicts = ctx.validate("s3/UploadLifeTrace.tla", levents, "UploadLifeTrace.cfg", batch=8000)
+    for ev, v in zip(levents, lverdicts):
+        ctx.record({"steps": [[s["op"], s["arg"]] for s in ev["steps"]]}, v, op="life-cycle", conformance=True, nontrivial=True,
+                   sample={"calls": [[s["op"], s["arg"], s["out"]] for s in ev["steps"]]})
+    ctx.traces_validated += len(levents)
     ctx.rule = ("schedules = every maximal interleaving of 2 writers + finaliser (local path all; distributed paths a seeded subset in the quick tier) and "
                 "simulated interleavings of 3 writers, each replayed on real threads through seams; non-trivial = at least two processes interleave within the "
                 "first 8 steps; plus schedules taken by the real threads under a seeded explorer (uniform / sticky / switchy) in 6 configurations, each checked to be a behaviour of the model; sink cases = part counts/sizes/orders/parts-dir placements and all subsets of limit keywords; distinct by schedule / case")
